@@ -15,6 +15,7 @@ import GherkinVerif.Spec.PureParse
 import GherkinVerif.Spec.TextLevel
 import Driver.GenAst
 import GherkinVerif.Spec.LayoutChecks
+import GherkinVerif.Spec.LayoutChecks2
 open GV
 
 namespace Driver
@@ -81,7 +82,7 @@ def handle (op : String) (as : List (List Nat)) : J :=
                       ("buildLines", .arr (ctx.builds.map fun t => .num t.lineNo)),
                       ("reads", .arr (ctx.reads.map J.num)), ("unexpected", .arr (ctx.unexpected.map J.num))]
   | "layoutok" =>
-    -- stop | default dialect | src | src' : hypotheses of the whole-document C16 theorems (Spec/LayoutChecks.lean):
+    -- stop | default dialect | src | src' | comment line : hypotheses of the whole-document C16 theorems (Spec/LayoutChecks.lean):
     -- `blank`: the positions k (0 … number of lines) where a whitespace-only line may be inserted after the
     -- first k lines of src; `indent`: src' is an admissible indentation of src (src' may be empty: not asked)
     match MState.init D (arg as 1) with
@@ -90,8 +91,12 @@ def handle (op : String) (as : List (List Nat)) : J :=
       let src := arg as 2
       let src' := arg as 3
       let n := (splitLines src).length
+      let c := arg as 4   -- a comment line (with its line feed); empty: not asked
       .obj [("blank", .arr (((List.range (n + 1)).filter fun k => Spec.blankLineOkB D T (flag as 0) μ 0 src k).map J.num)),
-            ("indent", .bool (!src'.isEmpty && Spec.indentOkB D T (flag as 0) μ 0 src' src))]
+            ("indent", .bool (!src'.isEmpty && Spec.indentOkB D T (flag as 0) μ 0 src' src)),
+            ("indent2", .bool (!src'.isEmpty && Spec.indentOk2B D T (flag as 0) μ 0 src' src)),
+            ("comment", .arr (if c.isEmpty then [] else
+              ((List.range (n + 1)).filter fun k => Spec.commentLineOkB D T (flag as 0) μ 0 src k c).map J.num))]
   | "textaccepts" =>
     -- default dialect | src : text-level acceptor (Spec/TextLevel.lean) and the intrinsic kinds along the run
     match MState.init D (arg as 0) with
